@@ -36,7 +36,7 @@ def plan(tier):
 
 
 def ncases(tier):
-    return 3000 if tier == "quick" else 25000
+    return 8000 if tier == "quick" else 25000
 
 
 def pick_stops(rng, times, t0):
